@@ -1123,10 +1123,16 @@ func (p *PubSub) handleDeadPeers() {
 		q.Close()
 		delete(p.peers, pid)
 
-		p.clearPeerFromTopicsState(pid)
+		// The topic state of a peer is learnt from the peer's own (incoming) stream and is
+		// cleared when that stream closes. If the peer is still connected, only our stream
+		// to it died: keep what it announced, it will not announce it again.
+		connected := p.host.Network().Connectedness(pid) == network.Connected
+		if !connected {
+			p.clearPeerFromTopicsState(pid)
+		}
 		p.rt.OnClosedOutboundStream(pid)
 
-		if p.host.Network().Connectedness(pid) == network.Connected {
+		if connected {
 			backoffDelay, err := p.deadPeerBackoff.updateAndGet(pid)
 			if err != nil {
 				p.logger.Debug("error updating backoff", "err", err, "peer", pid)
